@@ -295,12 +295,24 @@ static std::string dumpOf(const dd_edge &e, const ForestInfo &fi)
     return d.dump(e);
 }
 
+static bool QUIET = false;
+
 static void showEdge(const std::string &name)
 {
     dd_edge &e = edgeOf(name);
     ForestInfo &fi = forestOf(EDGEFOR[name]);
     if (!fi.alive) {
         emit(name + " detached attached=" + (e.getForest() ? "1" : "0"));
+        return;
+    }
+    if (QUIET) {
+        // large functions: a digest of the evaluation table instead of the table
+        std::string t = tableOf(e, fi);
+        unsigned long h = 1469598103934665603UL;
+        for (char c : t) { h ^= (unsigned char) c; h *= 1099511628211UL; }
+        char buf[128];
+        snprintf(buf, 128, " sig=%016lx nodes=%lu", h, e.getNodeCount());
+        emit(name + buf);
         return;
     }
     emit(name + " tab=" + tableOf(e, fi) + " dump=" + dumpOf(e, fi));
@@ -1218,6 +1230,7 @@ static void run(const std::vector<std::string> &tk)
     }
     else if (c == "audit") cmd_audit(tk);
     else if (c == "satpre") cmd_satpre(tk);
+    else if (c == "quiet") QUIET = (tk.size() > 1 && tk[1] == "1");
     else if (c == "destroyforest") cmd_destroyforest(tk);
     else if (c == "destroydomain") cmd_destroydomain(tk);
     else if (c == "attached") cmd_attached(tk);
